@@ -389,6 +389,7 @@ func unReplay(c *unCase, classes []string) Verdict {
 			unCheckFilter(&fails, res, "written", written, vals)
 			if want != written {
 				unCheckFilter(&fails, res, "base", want, vals)
+				unCheckFilterStream(&fails, res, written, want, vals)
 			}
 		}
 		// 3. the already normalised measurement fed back in changes nothing
@@ -549,6 +550,43 @@ func unCheckFilter(fails *unFails, res *benchfmt.Result, which, q string, vals [
 				fails.add("filter-miss-"+which, "filter %s does not match measurement %s (written %s %s)", expr, unValueStr(res.Values[i]), x.text, res.Values[i].OrigUnit)
 				return
 			}
+		}
+	}
+}
+
+// unCheckFilterStream applies ONE filter naming the written unit to a stream in which the
+// same metric is first written directly in its base unit and then in the written unit:
+// the term is judged per measurement (base or written unit), so the first record does not
+// match and the second does, whatever the filter has seen before.
+func unCheckFilterStream(fails *unFails, res *benchfmt.Result, written, base string, vals []*unVal) {
+	if strings.ContainsAny(base, " \t") || base == "" {
+		return
+	}
+	f, err := benchproc.NewFilter(".unit:" + strconv.Quote(written))
+	if err != nil {
+		return // reported by unCheckFilter
+	}
+	rd := benchfmt.NewReader(strings.NewReader("BenchmarkY 1 3 "+base+" 4 "+base+"\n"), "c04s.txt")
+	if !rd.Scan() {
+		return
+	}
+	first, ok := rd.Result().(*benchfmt.Result)
+	if !ok || len(first.Values) != 2 || first.Values[0].Unit != base {
+		return // the base unit is itself rewritten or not readable: not this probe's subject
+	}
+	m1, _ := f.Match(first)
+	if m1.Any() {
+		fails.add("filter-stream-base-written-matched", "filter .unit:%q matches a measurement written and reported as %q", written, base)
+		return
+	}
+	m2, _ := f.Match(res)
+	for i, x := range vals {
+		if x.rawHit {
+			continue
+		}
+		if !m2.Test(i) {
+			fails.add("filter-stream-miss-written", "filter .unit:%q, after seeing %q written directly, no longer matches %s written as %s", written, base, unValueStr(res.Values[i]), written)
+			return
 		}
 	}
 }
